@@ -129,7 +129,14 @@ fn oracle(bytes: &[u8], arg: &clap_lex::ParsedArg<'_>, fails: &mut Vec<(String, 
                         break;
                     }
                 }
-                Some(Err(suf)) => { consumed += suf.as_bytes().len(); }
+                Some(Err(suf)) => {
+                    // "its characters in order FOLLOWED BY any non-UTF-8 tail": the tail starts where the valid prefix ends,
+                    // i.e. it does not begin with a complete, valid UTF-8 character
+                    let t = suf.as_bytes();
+                    let starts_valid = (1..=t.len().min(4)).any(|k| std::str::from_utf8(&t[..k]).map(|x| x.chars().count() == 1).unwrap_or(false));
+                    if starts_valid { fail("tail-swallows-valid-char", format!("tail {} begins with a valid character", hex(t))); }
+                    consumed += t.len();
+                }
                 None => break,
             }
         }
